@@ -82,3 +82,84 @@ type Acct struct {
 	Limit   sql.NullInt64 `gorm:"column:lim;index"`
 	Audit   Audit         `gorm:"embedded;embeddedPrefix:audit_"`
 }
+
+// ---- growing family: relations are ADDED in version 2 (engine/c20/grow.go) ----
+// Book (and its leaner variants BookBT / BookHM, all on table `books`) gains belongs-to
+// relations to Author (which itself gains a belongs-to to Publisher: a dependency chain of
+// depth 2), a many2many to Tag and a has-many to Review.
+
+type Shelf struct {
+	ID   int64   `gorm:"primaryKey"`
+	Name string  `gorm:"size:30"`
+	Room *string `gorm:"index"`
+}
+
+type Publisher struct {
+	ID      int64  `gorm:"primaryKey"`
+	Name    string `gorm:"size:50;uniqueIndex:ux_publishers_name"`
+	Country string `gorm:"size:2;default:'xx'"`
+}
+
+type Author struct {
+	ID          uint
+	Name        string `gorm:"index"`
+	PublisherID *int64
+	Publisher   *Publisher
+	Born        *int `gorm:"check:born > 1000"`
+}
+
+type Tag struct {
+	Code  string `gorm:"primaryKey;size:8"`
+	Label string
+	Color *string
+}
+
+type Review struct {
+	ID     uint
+	BookID uint `gorm:"index"`
+	Stars  int  `gorm:"check:stars >= 0"`
+	Text   string
+}
+
+// Book: every addition at once.
+type Book struct {
+	ID       uint
+	Title    string `gorm:"size:64;not null"`
+	Pages    int    `gorm:"default:0"`
+	ShelfID  *int64
+	Shelf    *Shelf
+	AuthorID *uint
+	Author   *Author
+	EditorID *uint
+	Editor   *Author  `gorm:"foreignKey:EditorID"`
+	Isbn     *string  `gorm:"uniqueIndex:idx_books_isbn"`
+	Tags     []Tag    `gorm:"many2many:book_tags;joinForeignKey:BookID"`
+	Reviews  []Review `gorm:"foreignKey:BookID"`
+}
+
+// BookBT: only a belongs-to (new column + new foreign key on the existing table).
+type BookBT struct {
+	ID       uint
+	Title    string `gorm:"size:64;not null"`
+	Pages    int    `gorm:"default:0"`
+	ShelfID  *int64
+	Shelf    *Shelf
+	AuthorID *uint
+	Author   *Author
+}
+
+func (BookBT) TableName() string { return "books" }
+
+// BookHM: only relations whose foreign keys live in OTHER (new) tables.
+type BookHM struct {
+	ID      uint
+	Title   string `gorm:"size:64;not null"`
+	Pages   int    `gorm:"default:0"`
+	ShelfID *int64
+	Shelf   *Shelf
+	Isbn    *string  `gorm:"uniqueIndex:idx_books_isbn"`
+	Tags    []Tag    `gorm:"many2many:book_tags;joinForeignKey:BookID"`
+	Reviews []Review `gorm:"foreignKey:BookID"`
+}
+
+func (BookHM) TableName() string { return "books" }
